@@ -28,4 +28,442 @@ theorem tenPow_zero : tenPow 0 = 1 := by
 
 theorem one_zpow' (k : Int) : (1 : Rat) ^ k = 1 := one_zpow k
 
+
+/-! ### scaling between atoms -/
+
+theorem powerTexts_cases : ∀ w ∈ powerTexts,
+    (((w.drop 1).isEmpty = true ∧ powVal w = 1) ∨
+     ((w.drop 1).isEmpty = false ∧ pyInt (w.drop 1) = some (powVal w))) := by
+  decide
+
+theorem scalingCore_eq (p q x : Str) (hp : p ∈ optPrefixes) (hq : q ∈ optPrefixes) (k : Int)
+    (hx : (x.isEmpty = true ∧ k = 1) ∨ (x.isEmpty = false ∧ pyInt x = some k)) :
+    scalingCore p q x x = .ok (tenPow (expOf p - expOf q) ^ k) := by
+  unfold scalingCore
+  by_cases hpq : p = q
+  · subst hpq
+    simp [tenPow_zero]
+  · have hb : (p == q) = false := by simpa using hpq
+    simp only [hb, Bool.false_and, Bool.false_eq_true, ↓reduceIte, prefixScale_table p q hp hq]
+    rcases hx with ⟨he, hk⟩ | ⟨he, hk⟩
+    · simp [he, hk]
+    · simp [he, hk]
+
+theorem scaling_atoms (p₁ p₂ u w : Str) (h₁ : p₁ ∈ optPrefixes) (h₂ : p₂ ∈ optPrefixes)
+    (hu : u ∈ units) (hw : w ∈ powerTexts) :
+    scalable (p₁ ++ u ++ w) (p₂ ++ u ++ w) = true ∧
+    scaling (p₁ ++ u ++ w) (p₂ ++ u ++ w) = .ok (tenPow (expOf p₁ - expOf p₂) ^ powVal w) := by
+  obtain ⟨_, si1, sp1⟩ := atom_table p₁ u w h₁ hu hw
+  obtain ⟨_, si2, sp2⟩ := atom_table p₂ u w h₂ hu hw
+  have hs : scalable (p₁ ++ u ++ w) (p₂ ++ u ++ w) = true := by
+    unfold scalable
+    simp only [si1, si2, sp1, sp2]
+    simp
+  refine ⟨hs, ?_⟩
+  unfold scaling
+  simp only [hs, Bool.not_true, Bool.false_eq_true, ↓reduceIte, sp1, sp2]
+  exact scalingCore_eq p₁ p₂ (w.drop 1) h₁ h₂ (powVal w) (powerTexts_cases w hw)
+
+theorem not_scalable_atoms (p₁ p₂ u₁ u₂ w₁ w₂ : Str) (h₁ : p₁ ∈ optPrefixes) (h₂ : p₂ ∈ optPrefixes)
+    (hu₁ : u₁ ∈ units) (hu₂ : u₂ ∈ units) (hw₁ : w₁ ∈ powerTexts) (hw₂ : w₂ ∈ powerTexts)
+    (hne : u₁ ≠ u₂ ∨ w₁.drop 1 ≠ w₂.drop 1) :
+    scalable (p₁ ++ u₁ ++ w₁) (p₂ ++ u₂ ++ w₂) = false ∧
+    scaling (p₁ ++ u₁ ++ w₁) (p₂ ++ u₂ ++ w₂) = .error .invalidUnit := by
+  obtain ⟨_, si1, sp1⟩ := atom_table p₁ u₁ w₁ h₁ hu₁ hw₁
+  obtain ⟨_, si2, sp2⟩ := atom_table p₂ u₂ w₂ h₂ hu₂ hw₂
+  have hs : scalable (p₁ ++ u₁ ++ w₁) (p₂ ++ u₂ ++ w₂) = false := by
+    unfold scalable
+    simp only [si1, si2, sp1, sp2]
+    rcases hne with h | h
+    · simp [h]
+    · have h' : ¬ List.tail w₁ = List.tail w₂ := by simpa using h
+      simp [h']
+  refine ⟨hs, ?_⟩
+  unfold scaling
+  simp only [hs]
+  simp
+
+theorem ratio_compose (a b c k : Int) :
+    tenPow (a - b) ^ k * tenPow (b - c) ^ k = tenPow (a - c) ^ k := by
+  unfold tenPow
+  rw [← mul_zpow, ← zpow_add₀ (by norm_num : (10 : Rat) ≠ 0), sub_add_sub_cancel]
+
+theorem ratio_invert (a b k : Int) : tenPow (a - b) ^ k * tenPow (b - a) ^ k = 1 := by
+  rw [ratio_compose, sub_self, tenPow_zero, one_zpow]
+
+
+/-! ### compound recognition -/
+
+theorem altM_mem (alts : List Str) (a x : Str) (ha : a ∈ alts) : (a, x) ∈ altM alts (a ++ x) := by
+  unfold altM
+  rw [List.mem_filterMap]
+  refine ⟨a, ha, ?_⟩
+  have h1 : a.isPrefixOf (a ++ x) = true := by
+    rw [List.isPrefixOf_iff_prefix]; exact List.prefix_append a x
+  simp [h1]
+
+theorem digitsGreedy_nil_mem (r : Str) : ([], r) ∈ digitsGreedy r := by
+  cases r with
+  | nil => simp [digitsGreedy]
+  | cons c cs =>
+    unfold digitsGreedy
+    split <;> simp
+
+theorem powerM_mem : ∀ w ∈ powerTexts, w ≠ [] → ∀ r : Str, (w, r) ∈ powerM (w ++ r) := by
+  intro w hw hne r
+  simp only [powerTexts, List.mem_cons, List.not_mem_nil, or_false] at hw
+  rcases hw with rfl | rfl | rfl | rfl | rfl | rfl | rfl | rfl | rfl | rfl
+  · exact absurd rfl hne
+  all_goals
+    simp [powerM, isDigit19, digitsGreedy_nil_mem]
+
+
+theorem step_optPre (p : Str) (hp : p ∈ optPrefixes) (m : M) (x : Str) (h : m.rest = p ++ x) :
+    ∃ m' ∈ stepPiece .optPre m, m'.rest = x := by
+  unfold optPrefixes at hp
+  rcases List.mem_cons.mp hp with rfl | hp
+  · exact ⟨m, by simp [stepPiece], by simpa using h⟩
+  · refine ⟨{ m with pre := some p, matched := m.matched ++ p, rest := x }, ?_, rfl⟩
+    simp only [stepPiece, List.mem_append, List.mem_map]
+    left
+    exact ⟨(p, x), by rw [h]; exact altM_mem _ _ _ hp, rfl⟩
+
+theorem step_unit (u : Str) (hu : u ∈ units) (m : M) (x : Str) (h : m.rest = u ++ x) :
+    ∃ m' ∈ stepPiece .unit m, m'.rest = x := by
+  refine ⟨{ m with unit := some u, matched := m.matched ++ u, rest := x }, ?_, rfl⟩
+  simp only [stepPiece, List.mem_map]
+  exact ⟨(u, x), by rw [h]; exact altM_mem _ _ _ hu, rfl⟩
+
+theorem step_optPow (w : Str) (hw : w ∈ powerTexts) (m : M) (x : Str) (h : m.rest = w ++ x) :
+    ∃ m' ∈ stepPiece .optPow m, m'.rest = x := by
+  by_cases hne : w = []
+  · subst hne
+    exact ⟨m, by simp [stepPiece], by simpa using h⟩
+  · refine ⟨{ m with pow := some w, matched := m.matched ++ w, rest := x }, ?_, rfl⟩
+    simp only [stepPiece, List.mem_append, List.mem_map]
+    left
+    exact ⟨(w, x), by rw [h]; exact powerM_mem w hw hne x, rfl⟩
+
+/-- a table atom followed by anything is matched, as a prefix, by the compound atom pattern -/
+theorem atom_match (p u w : Str) (hp : p ∈ optPrefixes) (hu : u ∈ units) (hw : w ∈ powerTexts)
+    (r : Str) : ∃ m ∈ matchPieces compoundAtomShape.pieces { rest := p ++ u ++ w ++ r }, m.rest = r := by
+  have hsh : compoundAtomShape.pieces = [.optPre, .unit, .optPow] := rfl
+  rw [hsh]
+  obtain ⟨m1, hm1, r1⟩ := step_optPre p hp { rest := p ++ u ++ w ++ r } (u ++ (w ++ r)) (by simp)
+  obtain ⟨m2, hm2, r2⟩ := step_unit u hu m1 (w ++ r) r1
+  obtain ⟨m3, hm3, r3⟩ := step_optPow w hw m2 r r2
+  refine ⟨m3, ?_, r3⟩
+  simp only [matchPieces, List.mem_flatMap]
+  exact ⟨m1, hm1, m2, hm2, m3, hm3, by simp⟩
+
+theorem compoundAt_atoms (p₁ u₁ w₁ p₂ u₂ w₂ : Str) (sep : Char) (tail : Str)
+    (h₁ : p₁ ∈ optPrefixes) (hu₁ : u₁ ∈ units) (hw₁ : w₁ ∈ powerTexts)
+    (h₂ : p₂ ∈ optPrefixes) (hu₂ : u₂ ∈ units) (hw₂ : w₂ ∈ powerTexts)
+    (hsep : sep = '*' ∨ sep = '/') :
+    compoundAt ((p₁ ++ u₁ ++ w₁) ++ sep :: (p₂ ++ u₂ ++ w₂) ++ tail) = true := by
+  obtain ⟨m, hm, hr⟩ := atom_match p₁ u₁ w₁ h₁ hu₁ hw₁ (sep :: (p₂ ++ u₂ ++ w₂) ++ tail)
+  obtain ⟨m', hm', _⟩ := atom_match p₂ u₂ w₂ h₂ hu₂ hw₂ tail
+  set s := (p₁ ++ u₁ ++ w₁) ++ sep :: (p₂ ++ u₂ ++ w₂) ++ tail with hs
+  have hs' : s = p₁ ++ u₁ ++ w₁ ++ (sep :: (p₂ ++ u₂ ++ w₂) ++ tail) := by simp [hs]
+  have hsepM : ((p₂ ++ u₂ ++ w₂) ++ tail) ∈ (sepM m.rest).map (·.2) := by
+    rw [hr]
+    rcases hsep with rfl | rfl <;> simp [sepM]
+  have hats : ((p₂ ++ u₂ ++ w₂) ++ tail) ∈ atomThenSep s := by
+    unfold atomThenSep
+    rw [List.mem_flatMap]
+    exact ⟨m, by rw [hs']; exact hm, hsepM⟩
+  have hlen : s.length = (s.length - 1) + 1 := by
+    have : 0 < s.length := by simp [hs]
+    omega
+  unfold compoundAt
+  rw [List.any_eq_true]
+  refine ⟨(p₂ ++ u₂ ++ w₂) ++ tail, ?_, ?_⟩
+  · rw [hlen]
+    simp only [plusGroups, List.mem_flatMap, List.mem_append, List.mem_singleton]
+    exact ⟨_, hats, Or.inr rfl⟩
+  · cases hmp : matchPieces compoundAtomShape.pieces { rest := p₂ ++ u₂ ++ w₂ ++ tail } with
+    | nil => rw [hmp] at hm'; cases hm'
+    | cons a l => rfl
+
+theorem compound_atoms (p₁ u₁ w₁ p₂ u₂ w₂ : Str) (sep : Char) (tail : Str)
+    (h₁ : p₁ ∈ optPrefixes) (hu₁ : u₁ ∈ units) (hw₁ : w₁ ∈ powerTexts)
+    (h₂ : p₂ ∈ optPrefixes) (hu₂ : u₂ ∈ units) (hw₂ : w₂ ∈ powerTexts)
+    (hsep : sep = '*' ∨ sep = '/') :
+    isCompound ((p₁ ++ u₁ ++ w₁) ++ sep :: (p₂ ++ u₂ ++ w₂) ++ tail) = true ∧
+    isSi ((p₁ ++ u₁ ++ w₁) ++ sep :: (p₂ ++ u₂ ++ w₂) ++ tail) = true := by
+  have hc := compoundAt_atoms p₁ u₁ w₁ p₂ u₂ w₂ sep tail h₁ hu₁ hw₁ h₂ hu₂ hw₂ hsep
+  set s := (p₁ ++ u₁ ++ w₁) ++ sep :: (p₂ ++ u₂ ++ w₂) ++ tail with hs
+  have hne : s.isEmpty = false := by simp [hs]
+  have hsearch : compoundUsesSearch = true := rfl
+  have hcomp : isCompound s = true := by
+    unfold isCompound
+    rw [hne, hsearch]
+    simp only [Bool.not_false, Bool.true_and, ↓reduceIte]
+    rw [List.any_eq_true]
+    refine ⟨s, ?_, hc⟩
+    cases hcs : s with
+    | nil => simp [hcs] at hne
+    | cons c cs => simp [tails]
+  refine ⟨hcomp, ?_⟩
+  unfold isSi
+  simp [hne, hcomp]
+
+
+/-! ### sanitizer -/
+
+theorem containsSub_cons (pat : Str) (c : Char) (cs : Str) :
+    containsSub pat (c :: cs) = (pat.isPrefixOf (c :: cs) || containsSub pat cs) := by
+  simp [containsSub, tails]
+
+theorem containsSub_nil (pat : Str) (h : pat ≠ []) : containsSub pat [] = false := by
+  cases pat with
+  | nil => exact absurd rfl h
+  | cons a l => simp [containsSub, tails, List.isPrefixOf]
+
+theorem containsSub_single (c0 : Char) (s : Str) (h : c0 ∉ s) : containsSub [c0] s = false := by
+  induction s with
+  | nil => exact containsSub_nil _ (by simp)
+  | cons c cs ih =>
+    rw [containsSub_cons]
+    have hc : c0 ≠ c := fun e => h (by simp [e])
+    have hcs : c0 ∉ cs := fun e => h (by simp [e])
+    simp [List.isPrefixOf, hc, ih hcs]
+
+theorem replaceFuel_noop (old new : Str) : ∀ (fuel : Nat) (s : Str),
+    containsSub old s = false → replaceFuel fuel old new s = s := by
+  intro fuel
+  induction fuel with
+  | zero => intro s _; simp [replaceFuel]
+  | succ n ih =>
+    intro s h
+    cases s with
+    | nil => simp [replaceFuel]
+    | cons c cs =>
+      rw [containsSub_cons] at h
+      simp only [Bool.or_eq_false_iff] at h
+      simp [replaceFuel, h.1, ih cs h.2]
+
+theorem replace_noop (old new s : Str) (h : containsSub old s = false) : replace old new s = s :=
+  replaceFuel_noop old new _ s h
+
+theorem replaceFuel_mem (old new : Str) : ∀ (fuel : Nat) (s : Str) (x : Char),
+    x ∈ replaceFuel fuel old new s → x ∈ s ∨ x ∈ new := by
+  intro fuel
+  induction fuel with
+  | zero => intro s x hx; left; simpa [replaceFuel] using hx
+  | succ n ih =>
+    intro s x hx
+    cases s with
+    | nil => simp [replaceFuel] at hx
+    | cons c cs =>
+      simp only [replaceFuel] at hx
+      split at hx
+      · rcases List.mem_append.mp hx with h | h
+        · exact Or.inr h
+        · rcases ih _ x h with h | h
+          · exact Or.inl (List.mem_of_mem_drop h)
+          · exact Or.inr h
+      · rcases List.mem_cons.mp hx with h | h
+        · left; simp [h]
+        · rcases ih _ x h with h | h
+          · left; simp [h]
+          · exact Or.inr h
+
+theorem replace_mem (old new s : Str) (x : Char) (h : x ∈ replace old new s) : x ∈ s ∨ x ∈ new :=
+  replaceFuel_mem old new _ s x h
+
+theorem replaceFuel_char_removed (c0 : Char) (new : Str) (hn : c0 ∉ new) : ∀ (fuel : Nat) (s : Str),
+    s.length < fuel → c0 ∉ replaceFuel fuel [c0] new s := by
+  intro fuel
+  induction fuel with
+  | zero => intro s h; omega
+  | succ n ih =>
+    intro s h
+    cases s with
+    | nil => simp [replaceFuel]
+    | cons c cs =>
+      simp only [List.length_cons] at h
+      simp only [replaceFuel]
+      split
+      · rw [List.mem_append]
+        push Not
+        refine ⟨hn, ih _ ?_⟩
+        simp; omega
+      · rename_i hnp
+        have hc : c0 ≠ c := by
+          intro e
+          apply hnp
+          simp [List.isPrefixOf, e]
+        rw [List.mem_cons]
+        push Not
+        exact ⟨hc, ih cs (by omega)⟩
+
+theorem replace_char_removed (c0 : Char) (new s : Str) (hn : c0 ∉ new) : c0 ∉ replace [c0] new s :=
+  replaceFuel_char_removed c0 new hn _ s (by omega)
+
+theorem replaceFuel_length_le (old new : Str) (hl : new.length ≤ old.length) : ∀ (fuel : Nat) (s : Str),
+    (replaceFuel fuel old new s).length ≤ s.length := by
+  intro fuel
+  induction fuel with
+  | zero => intro s; simp [replaceFuel]
+  | succ n ih =>
+    intro s
+    cases s with
+    | nil => simp [replaceFuel]
+    | cons c cs =>
+      simp only [replaceFuel]
+      split
+      · rename_i hp
+        simp only [Bool.and_eq_true] at hp
+        have hpre := List.isPrefixOf_iff_prefix.mp hp.1
+        have hlen := hpre.length_le
+        have := ih ((c :: cs).drop old.length)
+        simp only [List.length_append, List.length_drop] at *
+        omega
+      · have := ih cs
+        simp only [List.length_cons]
+        omega
+
+theorem replaceFuel_length_lt (old new : Str) (hl : new.length < old.length) : ∀ (fuel : Nat) (s : Str),
+    s.length < fuel → containsSub old s = true → (replaceFuel fuel old new s).length < s.length := by
+  intro fuel
+  induction fuel with
+  | zero => intro s h; omega
+  | succ n ih =>
+    intro s h hc
+    cases s with
+    | nil =>
+      have : old ≠ [] := by intro e; simp [e] at hl
+      rw [containsSub_nil old this] at hc
+      cases hc
+    | cons c cs =>
+      simp only [List.length_cons] at h
+      simp only [replaceFuel]
+      split
+      · rename_i hp
+        simp only [Bool.and_eq_true] at hp
+        have hpre := List.isPrefixOf_iff_prefix.mp hp.1
+        have hlen := hpre.length_le
+        have := replaceFuel_length_le old new (Nat.le_of_lt hl) n ((c :: cs).drop old.length)
+        simp only [List.length_append, List.length_drop] at *
+        omega
+      · rename_i hnp
+        rw [containsSub_cons] at hc
+        have hold : old.isEmpty = false := by
+          cases old with
+          | nil => simp at hl
+          | cons a l => rfl
+        have hpf : old.isPrefixOf (c :: cs) = false := by
+          cases hq : old.isPrefixOf (c :: cs) with
+          | false => rfl
+          | true => exact absurd (by simp [hq, hold]) hnp
+        rw [hpf, Bool.false_or] at hc
+        have := ih cs (by omega) hc
+        simp only [List.length_cons]
+        omega
+
+theorem replaceFix_clean (old new : Str) (hl : new.length < old.length) : ∀ (fuel : Nat) (s : Str),
+    s.length ≤ fuel → containsSub old (replaceFix fuel old new s) = false := by
+  have hne : old ≠ [] := by intro e; simp [e] at hl
+  intro fuel
+  induction fuel with
+  | zero =>
+    intro s h
+    have : s = [] := List.eq_nil_of_length_eq_zero (by omega)
+    subst this
+    simpa [replaceFix] using containsSub_nil old hne
+  | succ n ih =>
+    intro s h
+    simp only [replaceFix]
+    split
+    · rename_i hc
+      apply ih
+      have := replaceFuel_length_lt old new hl (s.length + 1) s (by omega) hc
+      unfold replace
+      omega
+    · rename_i hc
+      simpa using hc
+
+theorem replaceFix_mem (old new : Str) : ∀ (fuel : Nat) (s : Str) (x : Char),
+    x ∈ replaceFix fuel old new s → x ∈ s ∨ x ∈ new := by
+  intro fuel
+  induction fuel with
+  | zero => intro s x hx; left; simpa [replaceFix] using hx
+  | succ n ih =>
+    intro s x hx
+    simp only [replaceFix] at hx
+    split at hx
+    · rcases ih _ x hx with h | h
+      · exact replace_mem old new s x h
+      · exact Or.inr h
+    · exact Or.inl hx
+
+theorem replaceFix_noop (old new : Str) (fuel : Nat) (s : Str) (h : containsSub old s = false) :
+    replaceFix fuel old new s = s := by
+  cases fuel with
+  | zero => rfl
+  | succ n => simp [replaceFix, h]
+
+def micro1 : Char := Char.ofNat 181
+def micro2 : Char := Char.ofNat 956
+
+theorem sanitizer_unfold (s : Str) :
+    sanitizer s =
+      (let t := replace [micro2] ['u'] (replace [micro1] ['u'] (replace [' '] [] s))
+       replaceFix t.length ['m', 'u'] ['u'] t) := rfl
+
+theorem sanitizer_is_clean' (s : Str) :
+    ' ' ∉ sanitizer s ∧ micro1 ∉ sanitizer s ∧ micro2 ∉ sanitizer s ∧
+    containsSub ['m', 'u'] (sanitizer s) = false := by
+  rw [sanitizer_unfold]
+  set s1 := replace [' '] [] s with hs1
+  set s2 := replace [micro1] ['u'] s1 with hs2
+  set s3 := replace [micro2] ['u'] s2 with hs3
+  have h1 : ' ' ∉ s1 := replace_char_removed ' ' [] s (by simp)
+  have h2a : micro1 ∉ s2 := replace_char_removed micro1 ['u'] s1 (by decide)
+  have h2b : ' ' ∉ s2 := by
+    intro h
+    rcases replace_mem _ _ _ _ h with h | h
+    · exact h1 h
+    · simp at h
+  have h3a : micro2 ∉ s3 := replace_char_removed micro2 ['u'] s2 (by decide)
+  have h3b : ' ' ∉ s3 := by
+    intro h
+    rcases replace_mem _ _ _ _ h with h | h
+    · exact h2b h
+    · simp at h
+  have h3c : micro1 ∉ s3 := by
+    intro h
+    rcases replace_mem _ _ _ _ h with h | h
+    · exact h2a h
+    · revert h; decide
+  refine ⟨?_, ?_, ?_, ?_⟩
+  · intro h
+    rcases replaceFix_mem _ _ _ _ _ h with h | h
+    · exact h3b h
+    · simp at h
+  · intro h
+    rcases replaceFix_mem _ _ _ _ _ h with h | h
+    · exact h3c h
+    · revert h; decide
+  · intro h
+    rcases replaceFix_mem _ _ _ _ _ h with h | h
+    · exact h3a h
+    · revert h; decide
+  · exact replaceFix_clean ['m', 'u'] ['u'] (by simp) s3.length s3 (Nat.le_refl _)
+
+theorem sanitizer_is_clean (s : Str) :
+    ' ' ∉ sanitizer s ∧ 'µ' ∉ sanitizer s ∧ 'μ' ∉ sanitizer s ∧
+    containsSub ['m', 'u'] (sanitizer s) = false := sanitizer_is_clean' s
+
+theorem sanitizer_idem (s : Str) : sanitizer (sanitizer s) = sanitizer s := by
+  obtain ⟨h1, h2, h3, h4⟩ := sanitizer_is_clean' s
+  generalize sanitizer s = t at *
+  rw [sanitizer_unfold]
+  simp only
+  rw [replace_noop [' '] [] t (containsSub_single _ _ h1),
+    replace_noop [micro1] ['u'] t (containsSub_single _ _ h2),
+    replace_noop [micro2] ['u'] t (containsSub_single _ _ h3),
+    replaceFix_noop _ _ _ _ h4]
+
 end Nix.Units.Lemmas
